@@ -38,6 +38,54 @@ pub(crate) fn get_occurrence_length(
     (max_length as i32, disp)
 }
 
+/// Returns false if a back-reference of an LZ10/LZ11 stream starts before the beginning of the
+/// output. nintendo_lz does not check this and panics on such input. Anything else that is wrong
+/// with the stream (truncation, bad magic number) is left for the decoder to report.
+pub(crate) fn references_in_bounds(bytes: &[u8]) -> bool {
+    scan_references(bytes).unwrap_or(true)
+}
+
+// Walks the token stream with the layouts used by nintendo_lz::decompress. None: ran out of input.
+fn scan_references(bytes: &[u8]) -> Option<bool> {
+    let byte = |pos: usize| bytes.get(pos).map(|b| *b as usize);
+    let lz11 = byte(0)? == 0x11;
+    let mut length = byte(1)? | byte(2)? << 8 | byte(3)? << 16;
+    let mut pos = 4;
+    if lz11 && length == 0 {
+        length = byte(4)? | byte(5)? << 8 | byte(6)? << 16 | byte(7)? << 24;
+        pos = 8;
+    }
+    let mut produced = 0;
+    while produced < length {
+        let flags = byte(pos)?;
+        pos += 1;
+        for bit in (0..8).rev() {
+            if produced >= length {
+                break;
+            }
+            if (flags >> bit) & 1 == 0 {
+                pos += 1;
+                produced += 1;
+                continue;
+            }
+            let (b0, b1) = (byte(pos)?, byte(pos + 1)?);
+            let (count, size) = match (lz11, b0 >> 4) {
+                (false, n) => (n + 3, 2),
+                (true, 0) => (((b0 & 15) << 4) + (b1 >> 4) + 0x11, 3),
+                (true, 1) => (((b0 & 15) << 12) + (b1 << 4) + (byte(pos + 2)? >> 4) + 0x111, 4),
+                (true, n) => (n + 1, 2),
+            };
+            let disp = ((byte(pos + size - 2)? & 15) << 8) + byte(pos + size - 1)? + 1;
+            if disp > produced {
+                return Some(false);
+            }
+            pos += size;
+            produced += count;
+        }
+    }
+    Some(true)
+}
+
 // Based on https://github.com/VelouriasMoon/FE3D/blob/main/FE3D/LZ13.cs
 fn calculate_lz13_header(bytes: &[u8]) -> Result<usize> {
     let mut max_lead = Wrapping(0i32);
@@ -182,6 +230,9 @@ impl LZ13CompressionFormat {
             Ok(result)
         } else {
             let truncated_input = if bytes[0] == 0x13 { &bytes[4..] } else { bytes };
+            if !references_in_bounds(truncated_input) {
+                return Err(CompressionError::InvalidInput("LZ13".to_string()));
+            }
 
             match decompress_arr(truncated_input) {
                 Ok(decompressed_data) => Ok(decompressed_data),
